@@ -19,7 +19,9 @@ PROPERTY = "C02"
 RULE = ("case = a history of <= 30 steps over named variables drawn by Hypothesis as a JSON list of operations "
         "(constructors: formula(str rendered from a derivation tree), formula(atom), formula({atom: n}), "
         "formula(nested [(n, fragment)] lists/tuples), formula(Formula); operators v=f+g, v=n*f with n in "
-        "{0, 1, integers, decimals and floats in [1e-6, 1e6]}, f+=g; operands chosen by index, f+f, f+=f included). "
+        "{0, 1, integers, decimals and floats in [1e-6, 1e6]}, f+=g; operands chosen by index, f+f, f+=f included; "
+        "constructors also with the atoms of a private table (formula(str, table=T), T's atoms), f.change_table(T) "
+        "and back, 'again' = an earlier constructor once more). "
         "Oracle: a Fraction model per variable updated by the algebra; after every step the new/changed variable "
         "(and, again, each operand of the step) has atoms == model (exact where the library's count is an int, rel 1e-12 otherwise; an atom with count 0 counts as absent), "
         "mass == sum n*(m(base atom) - charge*electron_mass) (rel 1e-12), charge == sum n*charge "
@@ -30,6 +32,9 @@ RULE = ("case = a history of <= 30 steps over named variables drawn by Hypothesi
         "on a formula of more than one fragment AND a += on a variable that was an operand of an earlier + or *; "
         "distinct by the operation list.")
 ASSUMPTIONS = [
+    "a variable lives on one table (public, or a private table with a few customised masses): its atoms must be that "
+    "table's objects and its mass uses that table's masses; change_table keeps composition keyed by (Z, A, charge); "
+    "+ and += of variables living on different tables are not generated",
     "atomic masses are read from the table (element.mass, isotope.mass: checked by C06) and the electron mass and "
     "Avogadro number from periodictable.constants; an ion's mass is recomputed from its base atom, not Ion.mass",
     "operations that would exceed 250 structure leaves or push a count outside [1e-30, 1e30] are skipped "
@@ -69,7 +74,7 @@ def base_mass(table, key):
 def check_var(var, case, where):
     """Compare one variable with its model."""
     E = ops.env()
-    table = E["table"]
+    table = E["tables"][var.table]      # the table the variable lives on: its atoms, its masses
     f, comp = var.f, var.comp
     atoms = f.atoms
     got = {}
@@ -78,7 +83,8 @@ def check_var(var, case, where):
         if k in got:
             raise Violation("c02:atoms:identity", "%s: two atom objects for %r in .atoms" % (where, k), case)
         if atom is not key_to_atom(table, k):
-            raise Violation("c02:atoms:identity", "%s: atom %r is not the table's object" % (where, atom), case)
+            raise Violation("c02:atoms:identity", "%s: atom %r is not the object of the %s table"
+                            % (where, atom, var.table), case)
         got[k] = n
     for k in sorted(set(got) | set(comp)):
         g, w = got.get(k, 0), comp.get(k, Fraction(0))
@@ -228,7 +234,7 @@ def check_history(ctx, history):
 
 def task_histories(ctx, n, steps=30):
     E = ops.env()
-    ctx.search("histories", ops.history(E["pool"], max_steps=steps), check_history, n)
+    ctx.search("histories", ops.history(E["pool"], max_steps=steps, tables=True), check_history, n)
 
 
 def tasks(tier):
